@@ -37,6 +37,13 @@ type LinCase struct {
 	MaxProcs int    `json:"maxprocs"`
 	Prefix   []Op   `json:"prefix"`
 	Progs    [][]Op `json:"progs"`
+	// part race-focus: the whole program (new cache, prefix, goroutines, observation at rest, porcupine) is run
+	// Rounds times (0 = once); the first round that is not linearizable is the verdict
+	Rounds int `json:"rounds,omitempty"`
+	// the first Lockstep calls of the goroutines run in lock step: call number j of every goroutine starts only when
+	// all goroutines that have a call number j arrived there (spin barrier on one atomic counter per step; it orders
+	// nothing between the calls themselves)
+	Lockstep int `json:"lockstep,omitempty"`
 }
 
 type linIn struct {
@@ -99,6 +106,26 @@ func clampProcs(n int) int {
 
 func ExecLin(c LinCase) *vkit.Result {
 	res := &vkit.Result{}
+	rounds := c.Rounds
+	if rounds < 1 {
+		rounds = 1
+	}
+	if rounds > 2000 {
+		rounds = 2000
+	}
+	old := runtime.GOMAXPROCS(clampProcs(c.MaxProcs))
+	defer runtime.GOMAXPROCS(old)
+	for r := 0; r < rounds && res.Fail == nil; r++ {
+		res.Skipped = res.Skipped[:0] // the same in every round
+		execLinRound(c, res, r)
+	}
+	if rounds > 1 {
+		res.Class("several rounds of one program")
+	}
+	return res
+}
+
+func execLinRound(c LinCase, res *vkit.Result, round int) *vkit.Result {
 	var t target
 	var idx func(Key) int
 	capa := c.Cap
@@ -107,8 +134,9 @@ func ExecLin(c LinCase) *vkit.Result {
 			res.Skip(p)
 			return res
 		}
-		t, idx = newWide(c.Impl, c.Cap, c.Shards, c.XHash)
-		capa = perShardCap(c.Cap, c.Shards)
+		var nsh int
+		t, idx, nsh = newWide(c.Impl, c.Cap, c.Shards, c.XHash)
+		capa = perShardCap(c.Cap, nsh)
 	} else {
 		if c.Cap < 0 {
 			res.Skip("case:negative-capacity")
@@ -157,9 +185,6 @@ func ExecLin(c LinCase) *vkit.Result {
 	if len(progs) > 64 {
 		progs = progs[:64]
 	}
-	old := runtime.GOMAXPROCS(clampProcs(c.MaxProcs))
-	defer runtime.GOMAXPROCS(old)
-
 	var clock atomic.Int64
 	call := func(client int, op Op, id int) porcupine.Operation {
 		in := linIn{op, id}
@@ -176,22 +201,53 @@ func ExecLin(c LinCase) *vkit.Result {
 	panics := make([]any, len(progs))
 	var ready, start atomic.Int32
 	var wg sync.WaitGroup
+	// lock step: need[j] goroutines have a call number j
+	var need []int32
+	var arrived []atomic.Int32
+	if c.Lockstep > 0 {
+		for _, p := range progs {
+			for j := range p {
+				if j >= c.Lockstep {
+					break
+				}
+				if j >= len(need) {
+					need = append(need, 0)
+				}
+				need[j]++
+			}
+		}
+		arrived = make([]atomic.Int32, len(need))
+		res.Class("goroutines in lock step")
+	}
 	for g := range progs {
 		wg.Add(1)
 		go func(g int) {
 			defer wg.Done()
+			j := 0
 			defer func() {
 				if r := recover(); r != nil {
 					panics[g] = r
+					for j++; j < len(need) && j < len(progs[g]); j++ { // nobody may wait for this goroutine
+						arrived[j].Add(1)
+					}
 				}
 			}()
 			ready.Add(1)
 			for start.Load() == 0 {
 				runtime.Gosched()
 			}
-			for j, op := range progs[g] {
+			var op Op
+			for j, op = range progs[g] {
 				if op.Y {
 					runtime.Gosched()
+				}
+				if j < len(need) {
+					arrived[j].Add(1)
+					for spin := 0; arrived[j].Load() < need[j]; spin++ {
+						if spin&255 == 255 {
+							runtime.Gosched()
+						}
+					}
 				}
 				per[g] = append(per[g], call(g+1, op, 1000*(g+1)+j+1))
 			}
@@ -243,6 +299,9 @@ func ExecLin(c LinCase) *vkit.Result {
 	}
 	if overlap {
 		res.Class("calls overlapped in time")
+		if c.Lockstep > 0 {
+			res.NonTrivial = true // lock-step programs evict nothing: their point is calls that overlap
+		}
 	}
 	if isWide(c.Impl) {
 		deleted, stored := map[Key]bool{}, map[Key]bool{}
@@ -297,9 +356,13 @@ func ExecLin(c LinCase) *vkit.Result {
 	if !porcupine.CheckOperations(linModel(isUnit(c.Impl), capa, part), hist) {
 		what := "ideal LRU"
 		if isWide(c.Impl) {
-			what = fmt.Sprintf("one ideal LRU of capacity %d per shard (%d shards)", capa, c.Shards)
+			what = fmt.Sprintf("one ideal LRU of capacity %d per shard (%d shards)", capa, shardCount(c.Shards))
 		}
-		return res.Failf(c.Impl+"/linearizability", "no sequential order of these calls that respects real time is a run of the %s with capacity %d; history [call,return]:%s", what, c.Cap, describeHistory(hist))
+		in := ""
+		if c.Rounds > 1 {
+			in = fmt.Sprintf("round %d of %d of this program (a new cache every round): ", round+1, c.Rounds)
+		}
+		return res.Failf(c.Impl+"/linearizability", "%sno sequential order of these calls that respects real time is a run of the %s with capacity %d; history [call,return]:%s", in, what, c.Cap, describeHistory(hist))
 	}
 	return res
 }
@@ -327,9 +390,9 @@ func GenLin(t *rapid.T) LinCase {
 	fillAll, oneSize, busy := false, false, false
 	if isWide(c.Impl) {
 		c.XHash = rapid.Bool().Draw(t, "xhash")
-		c.Shards = rapid.SampledFrom([]int{1, 2, 3, 7}).Draw(t, "shards")
+		c.Shards = genShards(t)
 		share := rapid.IntRange(1, 3).Draw(t, "share")
-		c.Cap = int64((share-1)*c.Shards + rapid.IntRange(0, c.Shards-1).Draw(t, "caprem"))
+		c.Cap = int64((share-1)*shardCount(c.Shards) + rapid.IntRange(0, shardCount(c.Shards)-1).Draw(t, "caprem"))
 		pool = genWidePool(t, c.XHash, c.Shards, 2, 3, 1)
 		kinds = wideKinds
 		sizeRef = int64(share)
@@ -406,7 +469,7 @@ func GenLin(t *rapid.T) LinCase {
 
 var PartLin = &vkit.Part[LinCase]{
 	Property: Property, Name: "race-lin",
-	Rule:  "rapid: implementation (both single caches, both wide packages with modulo/xxhash routing and 1|2|3|7 shards), small capacity, 2-4 keys (wide: 2-3 keys of one shard), a sequential prefix of 0-6 storing calls, then 2-4 goroutines x 3-6 calls (every public method incl. Keys/Items/Stats/StatsJSON observers; facade methods for wide; for the single caches about 15 % of the cases draw from a SetCapacity+Stats/StatsJSON-heavy mixture, 18 % from a Clear+Set+Keys/Items/Length-heavy one on a full cache of 4-6 one-size entries, 14 % from a Get+evicting-store mixture on a full cache of 2-3 entries with 3-5 keys (3-4 goroutines x 4-7 calls)) released together, GOMAXPROCS 1|2|4|8, optional yields; call/return stamps from one atomic counter; a final Keys+Items+Stats (wide: Peek of every key) at rest closes the history. Oracle: porcupine v1.3.0 decides linearizability of the history w.r.t. the ideal LRU (per shard for wide; SetIfAbsent-on-present refresh and Clear's effect on the eviction counter are nondeterministic in the model). Runs in the -race binary. Non-trivial: an eviction is visible in the history (evictions > 0, a non-empty removed list, or for wide a stored, never deleted key that is gone); distinct = distinct case JSON",
+	Rule:  "rapid: implementation (both single caches, both wide packages with modulo/xxhash routing and 1|2|3|7 shards, one in four 73|211|257 or the default configuration without an option), small capacity, 2-4 keys (wide: 2-3 keys of one shard), a sequential prefix of 0-6 storing calls, then 2-4 goroutines x 3-6 calls (every public method incl. Keys/Items/Stats/StatsJSON observers; facade methods for wide; for the single caches about 15 % of the cases draw from a SetCapacity+Stats/StatsJSON-heavy mixture, 18 % from a Clear+Set+Keys/Items/Length-heavy one on a full cache of 4-6 one-size entries, 14 % from a Get+evicting-store mixture on a full cache of 2-3 entries with 3-5 keys (3-4 goroutines x 4-7 calls)) released together, GOMAXPROCS 1|2|4|8, optional yields; call/return stamps from one atomic counter; a final Keys+Items+Stats (wide: Peek of every key) at rest closes the history. Oracle: porcupine v1.3.0 decides linearizability of the history w.r.t. the ideal LRU (per shard for wide; SetIfAbsent-on-present refresh and Clear's effect on the eviction counter are nondeterministic in the model). Runs in the -race binary. Non-trivial: an eviction is visible in the history (evictions > 0, a non-empty removed list, or for wide a stored, never deleted key that is gone); distinct = distinct case JSON",
 	Quick: 3000, Thorough: 4000,
 	Gen: GenLin, Exec: ExecLin,
 }
@@ -451,12 +514,13 @@ func ExecStress(c StressCase) *vkit.Result {
 	var t target
 	var ft fullTarget
 	var idx func(Key) int
+	nShards := 0
 	if wide {
 		if p := wideProblem(c.Impl, c.Shards, c.Cap); p != "" {
 			res.Skip(p)
 			return res
 		}
-		t, idx = newWide(c.Impl, c.Cap, c.Shards, c.XHash)
+		t, idx, nShards = newWide(c.Impl, c.Cap, c.Shards, c.XHash)
 	} else {
 		if c.Cap < 0 {
 			res.Skip("case:negative-capacity")
@@ -566,6 +630,72 @@ func ExecStress(c StressCase) *vkit.Result {
 			}
 		}
 	}
+	// keys that can never leave the cache during the stress: no program deletes them, no program clears or
+	// resizes, and everything the programs can ever store in the key's shard (the whole cache for the single ones)
+	// fits the capacity at once - an ideal LRU never evicts then, so once a storing call on such a key has returned,
+	// the key is present with a value stored under it
+	safe := map[Key]bool{}
+	writer := map[Key]int{} // safe keys: the only goroutine that stores the key, -1 if several do
+	if mode == modeFree {
+		shardOf := func(k Key) int {
+			if wide {
+				return idx(k)
+			}
+			return 0
+		}
+		biggest := map[Key]int64{}
+		deleted := map[Key]bool{}
+		for id, k := range idKey {
+			if idSize[id] > biggest[k] {
+				biggest[k] = idSize[id]
+			}
+		}
+		for _, p := range progs {
+			for _, o := range p {
+				if o.K == kDel {
+					deleted[o.Key] = true
+				}
+			}
+		}
+		load := map[int]int64{}
+		for k, sz := range biggest {
+			load[shardOf(k)] += sz
+		}
+		room := c.Cap
+		if wide {
+			room = perShardCap(c.Cap, nShards)
+		}
+		if !hasClear && len(caps) == 1 {
+			for k := range biggest {
+				if !deleted[k] && load[shardOf(k)] <= room {
+					safe[k] = true
+				}
+			}
+		}
+		if len(safe) > 0 {
+			res.Class("keys that can never be evicted or deleted: must stay present once stored")
+		}
+		defer func() {
+			for _, g := range writer {
+				if g >= 0 {
+					res.Class("never evicted keys stored by one goroutine only: its reads return its last store")
+					break
+				}
+			}
+		}()
+		// a safe key that only one goroutine stores holds, for that goroutine, the value of its last storing call
+		for g, p := range progs {
+			for _, o := range p {
+				if storing(o.K) && safe[o.Key] {
+					if w, ok := writer[o.Key]; ok && w != g {
+						writer[o.Key] = -1
+					} else if !ok {
+						writer[o.Key] = g
+					}
+				}
+			}
+		}
+	}
 	slotSize := func(id int) int64 { // conserve mode: size of the value with this identity
 		if unit {
 			return 1
@@ -620,6 +750,8 @@ func ExecStress(c StressCase) *vkit.Result {
 			// except through the cache: the race detector sees only the cache's own
 			// synchronisation
 			lastEv := int64(0)
+			mine := map[Key]bool{}  // safe keys a storing call of this goroutine has returned for
+			myLast := map[Key]int{} // ... and the value that call stored
 			for r := 0; r < reps && fails[g] == nil; r++ {
 				for j, op := range progs[g] {
 					if op.Y {
@@ -637,6 +769,18 @@ func ExecStress(c StressCase) *vkit.Result {
 					}
 					out, _ := doReal(t, op, id)
 					api := apiName[op.K]
+					if mine[op.Key] && !out.OK && (op.K == kGet || op.K == kPeek || op.K == kExist) {
+						fail(api+"/lost", "%v is a miss, though a storing call of this goroutine on the key returned earlier, no program deletes the key, clears or resizes, and all items the programs ever store (in the key's shard) fit the capacity together: an ideal LRU never evicts here", op)
+					}
+					if mine[op.Key] && out.OK && (op.K == kGet || op.K == kPeek) && writer[op.Key] == g && out.Val != myLast[op.Key] {
+						fail(api+"/stale", "%v returned value#%d, though this goroutine is the only one that stores the key, its last storing call on it that can have stored (a Set or SetAndGetRemoved, or the first SetIfAbsent) stored value#%d, and the key can never be evicted or deleted (all items the programs ever store (in the key's shard) fit the capacity together)", op, out.Val, myLast[op.Key])
+					}
+					if storing(op.K) && safe[op.Key] {
+						if op.K != kSia || !mine[op.Key] { // SetIfAbsent on a key that is certainly present stores nothing
+							myLast[op.Key] = id
+						}
+						mine[op.Key] = true
+					}
 					switch op.K {
 					case kGet, kPeek:
 						if out.OK {
@@ -757,12 +901,15 @@ func ExecStress(c StressCase) *vkit.Result {
 	site := func(s string) string { return c.Impl + "/stress-end/" + s }
 	if wide {
 		// at rest: membership consistent, values belong to keys, every shard within its share
-		share := perShardCap(c.Cap, c.Shards)
+		share := perShardCap(c.Cap, nShards)
 		load := map[int]int64{}
 		for _, k := range pool {
 			x, _ := k.iface()
 			e := t.Exist(x)
 			v, ok := t.Peek(x)
+			if safe[k] && !e {
+				return res.Failf(site("lost"), "at rest Exist(%v) = false, though the programs store the key, nobody deletes it, and all items ever stored in its shard %d fit the shard's capacity %d together: an ideal LRU never evicts here", k, idx(k), share)
+			}
 			if e != ok {
 				return res.Failf(site("Exist-vs-Peek"), "at rest Exist(%v) = %v but Peek hit = %v", k, e, ok)
 			}
@@ -776,7 +923,7 @@ func ExecStress(c StressCase) *vkit.Result {
 		for s, l := range load {
 			if l > share {
 				res.NonTrivial = true
-				return res.Failf(site("bound"), "at rest shard %d holds summed size %d, its capacity is %d/%d+1 = %d", s, l, c.Cap, c.Shards, share)
+				return res.Failf(site("bound"), "at rest shard %d holds summed size %d, its capacity is %d/%d+1 = %d", s, l, c.Cap, nShards, share)
 			}
 		}
 		present := 0
@@ -799,7 +946,7 @@ func ExecStress(c StressCase) *vkit.Result {
 			res.Class("eviction")
 		}
 		// everything deleted: the cache must behave like a new one
-		w := newWideIdeal(unit, c.Cap, c.Shards, idx)
+		w := newWideIdeal(unit, c.Cap, nShards, idx)
 		for i, op := range suffix {
 			if opProblem(op) != "" || !facadeOp(op.K) {
 				res.Skip("op:suffix-skipped")
@@ -851,6 +998,9 @@ func ExecStress(c StressCase) *vkit.Result {
 	}
 	for _, k := range pool {
 		x, _ := k.iface()
+		if safe[k] && !seen[k] {
+			return res.Failf(site("lost"), "at rest Keys() = %v does not list %v, though the programs store the key, nobody deletes it, clears or resizes, and all items ever stored fit the capacity %d together: an ideal LRU never evicts here", keys, k, c.Cap)
+		}
 		if !seen[k] && ft.Exist(x) {
 			return res.Failf(site("index"), "at rest Exist(%v) though Keys() does not list it: %v", k, keys)
 		}
@@ -954,13 +1104,19 @@ func GenStress(t *rapid.T) StressCase {
 	var pool []Key
 	kinds := stressFullKinds
 	sizeRef := int64(0)
+	private := false
 	if isWide(c.Impl) {
 		c.XHash = rapid.Bool().Draw(t, "xhash")
-		c.Shards = rapid.SampledFrom([]int{1, 2, 3, 7}).Draw(t, "shards")
-		c.Cap = genWideCap(t, c.Shards, c.Impl == implWTiny)
+		c.Shards = genShards(t)
+		c.Cap = genWideCap(t, shardCount(c.Shards), c.Impl == implWTiny)
 		pool = genWidePool(t, c.XHash, c.Shards, 3, 6, 4)
+		if rapid.IntRange(0, 2).Draw(t, "roomy") == 0 {
+			// every shard holds whatever the programs store in it: nothing is ever evicted, a stored key stays
+			c.Cap = int64(shardCount(c.Shards) * 16 * (len(pool) + 1))
+			private = rapid.Bool().Draw(t, "private")
+		}
 		kinds = wideKinds
-		sizeRef = perShardCap(c.Cap, c.Shards)
+		sizeRef = perShardCap(c.Cap, shardCount(c.Shards))
 	} else {
 		if rapid.IntRange(0, 9).Draw(t, "conserve") < 3 {
 			c.Mode = modeConserve
@@ -1011,6 +1167,24 @@ func GenStress(t *rapid.T) StressCase {
 		c.Progs = append([][]Op{p0}, rapid.SliceOfN(rapid.SliceOfN(call, 6, 24), 2, 5).Draw(t, "progs")...)
 	} else {
 		c.Progs = rapid.SliceOfN(rapid.SliceOfN(call, 6, 24), 3, 8).Draw(t, "progs")
+	}
+	if private {
+		// every goroutine keeps to its own keys (of the same hot shards): a read then has exactly one right answer,
+		// the value of the goroutine's own last store
+		at := map[Key]int{}
+		for i, k := range pool {
+			at[k] = i
+		}
+		ng := len(c.Progs)
+		for g, p := range c.Progs {
+			for j, o := range p {
+				if i := at[o.Key]/ng*ng + g; needsKey(o.K) && i < len(pool) {
+					p[j].Key = pool[i]
+				} else if needsKey(o.K) {
+					p[j].Key = pool[g%len(pool)]
+				}
+			}
+		}
 	}
 	sk := seqKinds
 	if isWide(c.Impl) {
